@@ -119,7 +119,13 @@ func TestConfirmTopLevelUnknownBoxClosed(t *testing.T) {
 func TestConfirmCTBOCountInfoLevel(t *testing.T) {
 	u := meta.UUIDFromString("85c0b687-820f-11e0-8111-f4ce462b6a48")
 	ub, _ := u.MarshalBinary()
-	item := func(i uint32) []byte { b := make([]byte, 20); binary.BigEndian.PutUint32(b, i); b[11] = 1; b[19] = 1; return b }
+	item := func(i uint32) []byte {
+		b := make([]byte, 20)
+		binary.BigEndian.PutUint32(b, i)
+		b[11] = 1
+		b[19] = 1
+		return b
+	}
 	ctbo := box("CTBO", be32(9), item(1), item(2), item(3), item(4), item(5))
 	file := append(ftyp("crx "), box("moov", box("uuid", ub, ctbo))...)
 	file = append(file, make([]byte, 64)...)
